@@ -353,6 +353,12 @@ impl MemoEmpty {
 #[derive(Clone, Debug)]
 pub struct BddMemoEmptyRef(pub MemoEmpty);
 
+#[derive(Clone, Debug, PartialEq)]
+pub enum MemoKey {
+    List(Bdd),
+    Mapping(Rc<Dnf>),
+}
+
 pub struct SemTypeContext {
     pub mapping_definitions: Vec<Option<Rc<MappingAtomicType>>>,
     pub mapping_memo: BTreeMap<Bdd, BddMemoEmptyRef>,
@@ -371,6 +377,11 @@ pub struct SemTypeContext {
     pub list_runtype_ref_memo: BTreeMap<RuntypeUUID, usize>,
     pub map_runtype_ref_memo: BTreeMap<RuntypeUUID, usize>,
     pub set_runtype_ref_memo: BTreeMap<RuntypeUUID, usize>,
+
+    /// Emptiness checks in progress, innermost last. The flag is set when the check relied on the
+    /// assumed emptiness of an entry further out: an `IsEmpty` answer obtained that way only holds
+    /// if the outer assumption does, and must not be memoised.
+    pub memo_in_progress: Vec<(MemoKey, bool)>,
 }
 impl Default for SemTypeContext {
     fn default() -> Self {
@@ -427,7 +438,23 @@ impl SemTypeContext {
             list_runtype_ref_memo: BTreeMap::new(),
             map_runtype_ref_memo: BTreeMap::new(),
             set_runtype_ref_memo: BTreeMap::new(),
+            memo_in_progress: vec![],
         }
+    }
+    pub fn memo_enter(&mut self, key: MemoKey) {
+        self.memo_in_progress.push((key, false));
+    }
+    /// A loop back to `key`: everything entered since relies on its assumed emptiness.
+    pub fn memo_loop(&mut self, key: &MemoKey) {
+        if let Some(p) = self.memo_in_progress.iter().position(|(k, _)| k == key) {
+            for e in self.memo_in_progress[p + 1..].iter_mut() {
+                e.1 = true;
+            }
+        }
+    }
+    /// Leaves the innermost check; true when an `IsEmpty` answer of it is only provisional.
+    pub fn memo_exit(&mut self) -> bool {
+        self.memo_in_progress.pop().map(|e| e.1).unwrap_or(false)
     }
     pub fn number_const(value: NumberRepresentationOrFormat) -> SemType {
         SemType::new_complex(
